@@ -96,7 +96,36 @@ macro_rules! chain_harnesses {
                             Err(_) => assert!(false, "C10: chain decode failed although data is available"),
                         }
                         cover!(used == 1 && inside, "word consumed");
-                        if (P as u32) < WB { cover!(used == 0 && inside, "chunk taken from the head"); }
+                        cover!((P as u32) == WB || (used == 0 && inside), "chunk taken from the head (or P == word size)");
+                    }
+                }
+            }
+
+            /// C13/C14: from_binary / from_compressed initialise the remainders head with the FEWEST words
+            /// that make it reach 2^(sb-wb-P) (none if the pushed 1 already does), leave the rest of the
+            /// data as the compressed side, start with an empty compressed head, and fail iff the data
+            /// cannot fill the head (from_compressed: or its last word is zero).
+            #[cfg_attr(kani, kani::proof)]
+            #[cfg_attr(kani, kani::unwind(8))]
+            pub fn new_heads() {
+                let data = A::any_upto(4);
+                let push_one: bool = any();
+                let r = if push_one { C::from_binary(SnapStack(data)) } else { C::from_compressed(SnapStack(data)) };
+                // spec
+                let th: u128 = 1u128 << (SB - WB - P as u32);
+                let mut n = data.n; let mut ok = true;
+                let mut head: u128 = if push_one { 1 } else if n > 0 && data.buf[n - 1] != 0 { n -= 1; data.buf[n] as u128 } else { ok = false; 0 };
+                while ok && head < th { if n == 0 { ok = false; } else { n -= 1; head = (head << WB) | data.buf[n] as u128; } }
+                match r {
+                    Err(CoderError::Frontend(_)) => assert!(!ok, "C13: chain coder refused data that can fill its remainders head"),
+                    Err(_) => assert!(false, "C13: undocumented error"),
+                    Ok(c) => {
+                        assert!(ok, "C13: chain coder accepted data that cannot fill its remainders head");
+                        let s = obs(&c);
+                        assert!(s.ch == 1, "C13/C14: a fresh chain coder must start with an empty compressed head");
+                        assert!(s.r as u128 == head && s.comp.n == n, "C13/C14: remainders head must take the fewest words that reach its lower bound");
+                        assert!(s.rem.n == 0, "C13: a fresh chain coder must start with empty remainders");
+                        assert!(inv(&s), "C20: fresh chain coder violates the head invariant");
                     }
                 }
             }
